@@ -85,6 +85,11 @@ pub fn generate(rng: &mut Rng, thorough: bool) -> Vec<String> {
         let du_days = format!("0 0 0 {} {} {} 0 0 0 0", rng.range(0, 3), rng.range(0, 30), rng.range(0, 90));
         v.push(format!("w19_dur_rel {z} {ns} {du_days} {}", rng.pick(&["round", "total", "total_hour", "compare"])));
         v.push(format!("w19_relto {z} {ns}"));
+        // Duration::total / round / compare without a reference point: the zero duration and small ones, every unit -
+        // the wrapper must fail exactly where the core fails
+        let du0 = match rng.below(4) { 0 => "0 0 0 0 0 0 0 0 0 0".to_string(), 1 => format!("0 0 0 0 {} 0 0 0 0 0", rng.range(0, 30)), 2 => format!("0 0 0 {} 0 0 0 0 0 0", rng.range(0, 3)), _ => format!("0 {} 0 0 0 0 0 0 0 0", rng.range(0, 2)) };
+        v.push(format!("w19_dur_none {du0} total {}", rng.pick(&UNITS)));
+        v.push(format!("w19_dur_none {du0} round {}", rng.pick(&UNITS)));
         // FFI slice
         v.push(format!("w19_capi_instant {ns}"));
         v.push(format!("w19_capi_instant {}", -ns));
@@ -299,6 +304,16 @@ pub fn eval(t: &[&str]) -> Option<String> {
                 "total" => cmp(du.total(Unit::Day, rel()), du.total_with_provider(Unit::Day, rel(), &p)),
                 "total_hour" => cmp(du.total(Unit::Hour, rel()), du.total_with_provider(Unit::Hour, rel(), &p)),
                 _ => cmp(du.compare(&du.negated(), rel()), du.compare_with_provider(&du.negated(), rel(), &p)),
+            }
+        }
+        "w19_dur_none" => {
+            let du = duration_from(&t[1..11]).ok()?;
+            match t[11] {
+                "total" => { let u = opt_unit(t[12])?; cmp(du.total(u, None), du.total_with_provider(u, None, &p)) }
+                _ => {
+                    let mk = || { let mut o = RoundingOptions::default(); o.smallest_unit = opt_unit(t[12]); o };
+                    cmp(du.round(mk(), None), du.round_with_provider(mk(), None, &p))
+                }
             }
         }
         "w19_relto" => {
